@@ -47,7 +47,12 @@ TAU0 = {('weak', True): 2e-2, ('weak', False): 6e-2,
 # estimates is judged there; the sigma rule (clean excess <= 0) is judged in full.
 TAU0_ASYNC = {'weak': 0.15, 'strong': 4.0}
 QUIET_SHARE = 0.3
-TAU0_QUIET = None       # set below after calibration
+# quiet worlds (straight leg, constant velocity and attitude, aiding on IMU epochs): worst
+# clean excess D(0.01) - 0.2*D(0.1) over 1 880 worlds (tools/c12_calibration_quiet*.json):
+# weak/3-D 2.0e-3, weak/2-D 7.0e-3, strong/3-D 3.0e-2, strong/2-D 4.8e-2; D(0.1) - 0.5*D(1)
+# <= 8e-3.  Thresholds at 6x: about half the ordinary ones.
+TAU0_QUIET = {('weak', True): 1.2e-2, ('weak', False): 4.2e-2,
+              ('strong', True): 0.18, ('strong', False): 0.3}
 SD_RATIO = 0.2          # D_sigma(0.01) <= SD_RATIO * D_sigma(0.1) + SD_FLOOR; the step from
 SD_FLOOR = 1.5e-4       # s=1 is NOT judged for sigma: 5 of 4 000 clean worlds have
                         # D_sigma(0.1) > 0.5*D_sigma(1) (higher-order terms at full scale)
@@ -139,6 +144,11 @@ def _gen_R(run_seed):
     n_ops = int(r.integers(2, 6))
     ops = [[['feedback', 'feedforward'][int(r.integers(2))], ['A', 'B'][int(r.integers(2))]]
            for _ in range(n_ops)]
+    if r.random() < 0.4:
+        # some runs of the history are made in the OTHER altitude mode, with the very same
+        # caller objects (initial state, tables, models): a 2-D run between two 3-D runs
+        for op in ops:
+            op.append(bool(r.random() < 0.4))
     return dict(format=1, kind='runs', family='R', A=A, B=B, ops=ops,
                 run_seed=int(run_seed))
 
@@ -342,11 +352,11 @@ def _tables_digest(res):
     return digest(*parts)
 
 
-def _run_plain(filt, sc, m, gyro, accel, meas):
+def _run_plain(filt, sc, m, gyro, accel, meas, flip=False):
     kn = sc['knobs']
     sig = kn['sigmas']
     kw = dict(gyro_model=gyro, accel_model=accel, measurements=meas,
-              with_altitude=bool(kn['with_altitude']))
+              with_altitude=bool(kn['with_altitude']) != bool(flip))
     if kn['time_step'] is not None:
         kw['time_step'] = float(kn['time_step'])
     B = 4 * FW.step_budget_for(sc, m)
@@ -370,13 +380,15 @@ def _exec_R(sc):
     viol = []
     digs = []
     errors = 0
-    for i, (filt, which) in enumerate(sc['ops']):
+    for i, op in enumerate(sc['ops']):
+        filt, which = op[0], op[1]
+        flip = bool(op[2]) if len(op) > 2 else False
         s, m = scs[which], mats[which]
-        res = _run_plain(filt, s, m, shared_g, shared_a, m['measurements'])
+        res = _run_plain(filt, s, m, shared_g, shared_a, m['measurements'], flip)
         d_shared = _tables_digest(res)
         m2 = FW.materialise(s)
         res2 = _run_plain(filt, s, m2, FW.build_model(s['knobs']['gyro_model']),
-                          FW.build_model(s['knobs']['accel_model']), m2['measurements'])
+                          FW.build_model(s['knobs']['accel_model']), m2['measurements'], flip)
         d_iso = _tables_digest(res2)
         digs.append(d_shared)
         if isinstance(res, str) or isinstance(res2, str):
@@ -398,19 +410,22 @@ def _exec_R(sc):
                           'R/rerun'))
             break
     probes = {'R_runs': 1}
-    seq = ''.join(f"{f[:2]}{w}" for f, w in sc['ops'])
+    seq = ''.join(f"{o[0][:2]}{o[1]}{'~' if len(o) > 2 and o[2] else ''}" for o in sc['ops'])
     if any(sc['ops'][i] == sc['ops'][j] for i in range(len(sc['ops']))
            for j in range(i)):
         probes['R_same_run_repeated'] = 1
-    if len({f for f, _ in sc['ops']}) == 2:
+    if len({o[0] for o in sc['ops']}) == 2:
         probes['R_both_filters_share_objects'] = 1
-    if len({w for _, w in sc['ops']}) == 2:
+    if len({o[1] for o in sc['ops']}) == 2:
         probes['R_two_scenarios_share_models'] = 1
+    if len({(o[1], bool(o[2]) if len(o) > 2 else False) for o in sc['ops']}) > \
+            len({o[1] for o in sc['ops']}):
+        probes['R_both_altitude_modes_on_the_same_caller_objects'] = 1
     if errors:
         probes['R_filter_error_runs'] = 1
     return dict(violations=viol, digest=digest(digs), sig='R|' + seq,
                 nontrivial=len(sc['ops']) > 1, probes=probes,
-                faults={}, sim_s=sum(FW.sim_seconds(scs[w]) for _, w in sc['ops']),
+                faults={}, sim_s=sum(FW.sim_seconds(scs[o[1]]) for o in sc['ops']),
                 ops=len(sc['ops']), extra={})
 
 
@@ -488,6 +503,8 @@ def _exec_F(sc):
         wa = bool(sc['knobs']['with_altitude'])
         tau0 = TAU0_ASYNC[sc['regime']] if sc.get('asynchronous') else \
             TAU0[(sc['regime'], wa)]
+        if sc.get('quiet') and not sc.get('asynchronous') and TAU0_QUIET:
+            tau0 = TAU0_QUIET[(sc['regime'], wa)]
         lever_note = ''
         if any(s_['cls'] == 'NedVelocity' and s_['lever'] is not None
                for s_ in sc['sensors']):
@@ -516,7 +533,8 @@ def _exec_F(sc):
                               f"{RATIO[1]}*D(0.1) + {tau0}" + lever_note,
                               'F/ladder/ned-velocity-lever-arm' if lever_note
                               else f'F/ladder/{label}'))
-        r = sc['regime'] + ('3d' if wa else '2d') + ('async' if sc.get('asynchronous') else '')
+        r = sc['regime'] + ('3d' if wa else '2d') + ('async' if sc.get('asynchronous') else '') \
+            + ('quiet' if sc.get('quiet') else '')
         extra = {f'max_{r}_D1': met[0]['D'], f'max_{r}_D001': met[2]['D'],
                  f'max_{r}_excess_over_tau0': max(
                      max(met[i + 1][k] - RATIO[i] * met[i][k] for k in ('D', 'Dg', 'Da'))
@@ -532,6 +550,8 @@ def _exec_F(sc):
         probes['F_bias_on_a_subset_of_axes'] = 1
     if sc.get('asynchronous'):
         probes['F_aiding_epochs_between_imu_epochs'] = 1
+    if sc.get('quiet'):
+        probes['F_quiet_world_tight_threshold'] = 1
     if any(s_['stamps'] and s_['stamps'][0] == sc['imu']['stamps'][0] for s_ in sc['sensors']):
         probes['F_fix_at_the_initial_stamp'] = 1
     if sc.get('family') == 'L':
@@ -591,7 +611,8 @@ PROBES_WANTED = ['T_runs', 'T_measurements_none', 'T_measurements_empty', 'T_emp
                  'F_strong_aiding', 'F_scale_misalignment_states', 'F_two_d_mode',
                  'L_directed_lever_arm_worlds', 'F_epoch_shared_between_sensors',
                  'F_bias_on_a_subset_of_axes', 'F_aiding_epochs_between_imu_epochs',
-                 'F_fix_at_the_initial_stamp']
+                 'F_fix_at_the_initial_stamp', 'F_quiet_world_tight_threshold',
+                 'R_both_altitude_modes_on_the_same_caller_objects']
 
 
 def describe():
